@@ -228,6 +228,10 @@ func runC20(c *Ctx) {
 			}
 		}
 	}
+	// the node that carries a construct's position is the node the parent receives: a handler
+	// that hands on some other node (one built for another occurrence of the same text) makes
+	// the construct cite that other place
+	c.ruleListenerAttach("L2-own-node-handed-on")
 	c.ruleWholeText("L2-whole-text")
 	c.Min("L2-whole-text", 3)
 	c.Min("L1-citing-nodes-populated", 24)
